@@ -52,7 +52,7 @@ if [ -f "$OUT/.done" ]; then echo "$OUT"; exit 0; fi
 
 # prune old hashes of this flavour: keep the 5 most recently used (concurrent checks against
 # other trees, e.g. mutation runs, must not lose their library under their feet)
-ls -1dt "$BUILD"/lib-"$FLAVOUR"-*/.done 2>/dev/null | tail -n +6 | while read -r f; do rm -rf "$(dirname "$f")"; done
+{ ls -1dt "$BUILD"/lib-"$FLAVOUR"-*/.done 2>/dev/null || true; } | tail -n +6 | while read -r f; do rm -rf "$(dirname "$f")"; done
 
 rm -rf "$OUT"; mkdir -p "$OUT/gen/rtrlib" "$OUT/obj"
 cat > "$OUT/gen/rtrlib/config.h" <<EOF
